@@ -107,18 +107,27 @@ Tick == steps' = steps + 1
 
 (* next_token(): a token, the end of the stream, or a stream error.
    `then` = pc after a token, `theneof` = pc at end of input *)
+(* a case may fix its input (`fixed`, used for long inputs: then exactly one
+   behaviour exists); otherwise every input up to n tokens is explored *)
+Fixed == "fixed" \in DOMAIN Cases[c]
+MayPull(t) == Fixed => (pulled < Len(Cases[c].fixed) /\ Cases[c].fixed[pulled + 1] = t)
+MayEnd == Fixed => (pulled = Len(Cases[c].fixed) /\ ~Cases[c].inject)
+MayInject == Fixed => pulled = Len(Cases[c].fixed)
+
 PullInto(then, theneof) ==
   \/ /\ pulled < Cases[c].n
      /\ \E t \in {x \in TSet(GC) : x # ERR} :
+          /\ MayPull(t)
           /\ la' = [t |-> t, k |-> pulled + 1]
           /\ inp' = Append(inp, t)
      /\ pulled' = pulled + 1
      /\ lastLoc' = TokHi(pulled + 1)
      /\ pc' = then
      /\ UNCHANGED res
-  \/ /\ la' = EofLa /\ pc' = theneof
+  \/ /\ MayEnd
+     /\ la' = EofLa /\ pc' = theneof
      /\ UNCHANGED <<inp, pulled, lastLoc, res>>
-  \/ /\ Cases[c].inject /\ pulled < Cases[c].n
+  \/ /\ Cases[c].inject /\ pulled < Cases[c].n /\ MayInject
      /\ res' = [kind |-> "inj", at |-> pulled + 1]
      /\ pc' = "done"
      /\ UNCHANGED <<la, inp, pulled, lastLoc>>
